@@ -121,6 +121,19 @@ INNER_FILES = ["t.csv", "T.CSV", "n.nc", "u.txt", "noext", ".hid", ".csv", "x.cs
                "f010.txt", "t.csv.json", "m.cdf", "w.nc4", "q.csv.txt", "a.", "mycatalog.xml", "z.html"]
 
 
+LONG_FILE = "L" * 180 + ".csv"
+LONG_DIR = "D" * 150
+# glob metacharacters, names that are only an extension, upper/mixed-case extensions, spaces and percent signs, long names
+SPECIAL_FILES = ["run[1].csv", "a*b.csv", "q?.csv", "[x].txt", ".nc", ".CSV", ".Csv", "M.Nc", "w.CdF", "a b.csv", "50%.txt",
+                 "p%2e.csv", "%41.csv", "100%25.csv", LONG_FILE, "x].nc", "*", "?"]
+SPECIAL_DIRS = ["run[1]", "run1", "a b", "%2e%2e", "x*", "d?", "[", LONG_DIR, ".csv.d", "%2F"]
+
+
+def q(name):
+    from urllib.parse import quote
+    return quote(name, safe="")
+
+
 class Layout:
     def __init__(self, rng, idx, quick=True):
         self.base = os.path.realpath(tempfile.mkdtemp(prefix="c16-"))
@@ -153,6 +166,21 @@ class Layout:
             if not os.path.exists(os.path.join(self.root, "sub")):
                 os.mkdir(os.path.join(self.root, "sub"))
                 self.put(os.path.join(self.root, "sub", "t.csv"))
+        # special names, systematically: `run[1]` next to `run1` (what a glob of the former would match), and a sample
+        self.special = ["run[1]", "run1"] + rng.sample(SPECIAL_DIRS[2:], 2)
+        self.special_files = rng.sample(SPECIAL_FILES, 6)
+        for i, dn in enumerate(self.special):
+            d = os.path.join(self.root, dn)
+            if not os.path.exists(d):
+                os.mkdir(d)
+            self.put(os.path.join(d, "t.csv" if dn != "run1" else "only-in-run1.csv"))
+            self.put(os.path.join(d, self.special_files[i % len(self.special_files)]))
+        for fn in self.special_files:
+            p = os.path.join(self.root, fn)
+            if not os.path.exists(p):
+                self.put(p)
+        # the same special file name outside the root (sibling): must never be reached
+        self.put(os.path.join(self.base, self.siblings[0], self.special_files[0]))
 
     def put(self, path):
         self.n += 1
@@ -198,7 +226,9 @@ class Layout:
         for dirpath, dirs, files in os.walk(self.root):
             if dirpath != self.root:
                 nested += dirs + files
-        files_top = [n for n in top if os.path.isfile(os.path.join(self.root, n))]
+        files_top = [q(n) for n in top if os.path.isfile(os.path.join(self.root, n))]
+        top = [q(n) for n in top]
+        nested = [q(n) for n in nested]
         fixed = ["..", ".", "", "%2e%2e", "%252e%252e", "catalog.xml", self.siblings[0], self.root_name, "secret.txt"]
         derived = []
         for f in files_top[:4]:
@@ -452,8 +482,27 @@ def handler_exts(handlers):
 
 
 # ------------------------------------------------------------------------------------------------
+def special_urls(layout):
+    """requests aimed at the special names: quoted and raw forms, DAP suffixes, listings, glob look-alikes"""
+    urls = ["/run*", "/run%5B1%5D", "/run%5B1%5D/", "/run[1]/", "/run1/", "/run%5B1%5D/catalog.xml", "/run%5B1%5D/t.csv.dds",
+            "/run1/t.csv.dds", "/run%5B1%5D/only-in-run1.csv", "/run%5B1%5D/only-in-run1.csv.dds", "/run%3F", "/*", "/%2A/", "/?",
+            "/%3F", "/.CSV.dds", "/.csv.DDS", "/t.CSV.dds", "/T.csv.dds", "/%2e%2e/", "/%252e%252e/", "/%252e%252e/t.csv",
+            "/%252e%252e/../t.csv", "/%252F/", "/%2F/t.csv"]
+    for fn in layout.special_files:
+        for form in (q(fn), fn):
+            urls += ["/" + form, "/" + form + ".dds", "/" + form + ".das", "/" + form + "/", "/" + form + "/catalog.xml",
+                     "/sub/../" + form, "/" + form.upper(), "/" + form.lower() + ".dds"]
+    for dn in layout.special:
+        for form in (q(dn), dn):
+            urls += ["/" + form, "/" + form + "/", "/" + form + "/catalog.xml", "/" + form + "/t.csv", "/" + form + "/t.csv.dds",
+                     "/" + form + "/../t.csv", "/" + form + ".dds", "/" + form + "/.."]
+            for fn in layout.special_files[:3]:
+                urls += ["/" + form + "/" + q(fn), "/" + form + "/" + q(fn) + ".dds"]
+    return urls
+
+
 def urls_for(layout, rng, alpha, full, n_sampled, max_exhaustive):
-    urls = []
+    urls = special_urls(layout)
     for n in range(0, max_exhaustive + 1):
         for t in itertools.product(alpha, repeat=n):
             urls.append("/" + "/".join(t))
@@ -474,6 +523,81 @@ def urls_for(layout, rng, alpha, full, n_sampled, max_exhaustive):
             t.append(rng.choice(["..", ".", "", "sub", layout.siblings[0], layout.root_name]) if r < 0.45 else rng.choice(full))
         urls.append("/" + "/".join(t))
     return list(dict.fromkeys(urls))
+
+
+# ------------------------------------------------------------------------------------------------
+# histories on one DapServer object, compared with a fresh server per request
+def gen_history(layout, rng, interesting):
+    """a list of steps: ("get", url) | ("rm", relpath) | ("add", relpath) | ("swap", relpath)"""
+    dirs = [u for u, o in interesting if o.startswith(("(listing", "(catalog"))]
+    files = [u for u, o in interesting if o.startswith("(file")]
+    daps = [u for u, o in interesting if o.startswith("(dap")]
+    other = [u for u, o in interesting if o.startswith(("(unsupported", "(forbidden", "(notfound"))]
+    pick = lambda l, dflt: rng.choice(l) if l else dflt  # noqa: E731
+    A, F, Dp, O = pick(dirs, "/"), pick(files, "/u.txt"), pick(daps, "/t.csv.dds"), pick(other, "/nope")
+    steps = [("get", A), ("get", F), ("get", A), ("get", Dp), ("get", O), ("get", Dp), ("get", F)]
+    # same extension, other file: a lookup remembered per extension would answer with the first file
+    steps += [("get", "/.csv.dds"), ("get", "/noext.dds"), ("get", "/t.csv.dds"), ("get", "/sub/t.csv.dds"), ("get", "/.csv.dds")]
+    for _ in range(rng.randint(2, 6)):
+        steps.insert(rng.randrange(len(steps) + 1), ("get", rng.choice([A, F, Dp, O] + [u for u, _ in interesting[:50]])))
+    # the file system changes under the long-lived server
+    from urllib.parse import unquote
+    victim = pick([u for u in files if u.count("/") == 1 and u not in ("/t.csv", "/.csv", "/noext")
+                   and os.path.isfile(os.path.join(layout.root, unquote(u.lstrip("/"))))], None)
+    if victim:
+        rel = unquote(victim.lstrip("/"))
+        steps += [("get", "/"), ("get", victim), (rng.choice(["rm", "swap"]), rel), ("get", victim), ("get", "/"),
+                  ("get", victim + "/"), ("get", victim + ".dds")]
+    new = rng.choice(["new1.csv", "sub/new2.CSV", "run[1]/n3.nc", "brand new.txt"])
+    steps += [("get", "/" + q(new)), ("get", "/" + q(new) + ".dds"), ("add", new), ("get", "/" + q(new)),
+              ("get", "/" + q(new) + ".dds"), ("get", "/" + q(os.path.dirname(new)) + "/" if os.path.dirname(new) else "/")]
+    return steps
+
+
+def apply_step(layout, step):
+    kind, rel = step
+    p = os.path.join(layout.root, rel)
+    if kind == "rm":
+        os.remove(p)
+        layout.markers.pop(p, None)
+    elif kind == "swap":                      # a file becomes a directory of the same name
+        os.remove(p)
+        layout.markers.pop(p, None)
+        os.mkdir(p)
+        layout.put(os.path.join(p, "inner.txt"))
+    elif kind == "add":
+        layout.put(p)
+
+
+def run_history(ctx, layout, steps, meta, cases):
+    """one long-lived server for the whole history; a fresh server for each request; same answers demanded"""
+    long_lived = Server(layout)
+    head = "%s %s" % (names_sexp(long_lived.exts), segs_sexp(layout.root))
+    evs, outs = [], []
+    failed = False
+    for i, step in enumerate(steps):
+        if step[0] != "get":
+            apply_step(layout, step)
+            continue
+        url = step[1]
+        r1 = long_lived.request(url)
+        tag, bad = long_lived.judge(ctx, r1)
+        r2 = Server(layout).request(url)
+        obs = (r1["status"], r1["ctype"], r1["cdesc"], r1["exc"], r1["body"])
+        exp = (r2["status"], r2["ctype"], r2["cdesc"], r2["exc"], r2["body"])
+        ctx.count(("hist", repr(meta), i), i > 0, tag="history:%s" % tag)
+        if obs != exp:
+            failed = True
+            ctx.oracle_fail("answer of a long-lived server differs from a fresh server's (routing depends on earlier requests)",
+                            dict(meta, history=steps[:i + 1], url=url), tuple(str(x)[:60] for x in obs),
+                            tuple(str(x)[:60] for x in exp), size=10 ** 6 + i)
+        failed = failed or bad
+        pi = r1["path_info"]
+        if pi.isascii() and not any(ord(c) < 32 for c in pi):
+            evs.append("(%s %s)" % (hexb(pi.encode()), layout.fs_sexp()))
+            outs.append(long_lived.canon(r1))
+    cases.append(("path-history %s (%s)" % (head, " ".join(evs)), "(" + " ".join(outs) + ")", dict(meta, history=steps)))
+    return failed
 
 
 def pure_cases(ctx, rng, handlers, exts, n):
@@ -547,6 +671,7 @@ def explore(ctx, tier, search=False):
     n_layouts = 2 if tier == "quick" else 8
     alpha_size = 16 if tier == "quick" else 22
     n_sampled = 1500 if tier == "quick" else 12000
+    n_hist = 5 if tier == "quick" else 30
     if search:
         n_layouts, alpha_size, n_sampled = 4, 20, 6000
     exts_seen = handlers_seen = None
@@ -579,6 +704,15 @@ def explore(ctx, tier, search=False):
                 ctx.count((li, url), tag not in ("notfound",), tag="%s:%s" % ("<=3" if nseg <= 3 else ">3", tag),
                           sample={"root": L.root_name, "url": url, "outcome": impl[:80]})
             ctx.correspond("DapServer.__call__ outcome", cases)
+            # histories (they change the layout: run last)
+            interesting = [(c[2]["url"], c[1]) for c in cases if c[2]["url"].startswith("/")]
+            rng.shuffle(interesting)
+            hcases = []
+            for hi in range(n_hist):
+                hr = ctx.rng("%s-hist-%d" % (label, hi))
+                run_history(ctx, L, gen_history(L, hr, interesting), {"layout": L.seed_info, "root": L.root_name, "hist": hi},
+                            hcases)
+            ctx.correspond("DapServer over a request history (one object)", hcases)
             # the recorded accesses of the implementation are among the model's accesses (+ handler internals)
             tcases = [c for c in cases if c[1].startswith(("(listing", "(catalog", "(file", "(dap"))][:400]
             outs = common.run_driver([c[0].replace("path-serve", "path-trace", 1) for c in tcases])
@@ -641,9 +775,12 @@ def replay(payload):
         if L.root_name != case["root"]:
             print("layout could not be regenerated")
             return False
-        srv = Server(L)
-        r = srv.request(case["url"])
-        tag, failed = srv.judge(ctx, r)
+        if "history" in case:
+            failed = run_history(ctx, L, [tuple(st) for st in case["history"]], {"layout": info, "root": L.root_name}, [])
+        else:
+            srv = Server(L)
+            r = srv.request(case["url"])
+            tag, failed = srv.judge(ctx, r)
         for fl in ctx.oracle_failures:
             print("observed %r expected %r (%s)" % (fl["observed"], fl["expected"], fl["what"]))
         return not failed
